@@ -172,11 +172,12 @@ let run_cnt id rest =
      | _ -> id ^ " err")
   | ["R"; order; block; warmup; params; quot; rem] ->
     let n s = n_of_int (int_of_string s) in
-    let r = { Rice.r_order = n order; r_block = n block; r_warmup = n warmup; r_params = parse_n_list params;
-              r_quot = parse_n_list quot; r_rem = parse_n_list rem } in
+    (match Ctor.residual_new (n order) (n block) (n warmup) (parse_n_list params) (parse_n_list quot) (parse_n_list rem) with
+     | Ok r ->
     let cnt = Component.residual_count_bits r in
     let written = OpsLen.ops_len N0 (Component.residual_ops r) in
     Printf.sprintf "%s ok count=%s written=%s" id (dec_of_n cnt) (dec_of_n written)
+     | _ -> id ^ " err")
   | ["H"; block; chtag; bps; rate; kind; num] ->
     let n s = n_of_int (int_of_string s) in
     let chtag = int_of_string chtag in
